@@ -47,7 +47,7 @@ def run(chk, ctx) -> None:
 
     def by_card(f, order):
         lst = ups(f, order)
-        return ('mcall', lst, 'index', (('call', f, (lst,), (('key', key(order)),)),), ())
+        return ('mcall', lst, 'index', (('call', f, (lst, key(order)), ()),), ())       # (key= is read as the second positional parameter)
 
     def by_hand(f, lookup):
         lst = T.spec(f'[self.{lookup}.get_entry_or_none(self.get_up_cards(i)) for i in self.player_indices]')
